@@ -295,6 +295,9 @@ pub struct Script {
     /// type whose `format_response_data` refuses (the handler propagates `finish()`); the message must fail with
     /// exactly that error, extended text included
     pub fail_via_response: bool,
+    /// a query handler that writes its data and returns its own `Ok(())` without calling `finish()` (nothing failed, so
+    /// there is nothing to propagate): its answer is part of the response like any other
+    pub skip_finish: bool,
 }
 
 /// user-defined response data that cannot be formatted
@@ -427,6 +430,9 @@ impl Command<Dev> for Script {
                     if self.finish_each {
                         let _ = resp.finish();
                     }
+                }
+                if self.skip_finish && self.fail.is_none() {
+                    return Ok(());
                 }
                 resp.finish()
             })
